@@ -100,15 +100,21 @@ func run(c *core.Ctx) {
 	// directed schedules first: a locked node is challenged by a late polka of an OLDER round
 	// and a fresh proposal (the situation the unlock rule is about; random schedules hit it rarely)
 	nDirected, reachedN := c.Pick(6, 40), 0
+	reachedKind := map[int]int{}
 	for d := 0; d < nDirected; d++ {
 		seed := c.Seed*100000 + 90000 + int64(d)
-		lines, desc, reached, err := lockChallengeTrace(seed)
+		gen := lockChallengeTrace
+		if d%2 == 1 {
+			gen = relockChallengeTrace
+		}
+		lines, desc, reached, err := gen(seed)
 		if err != nil {
 			c.Drift("%v", err)
 			continue
 		}
 		if reached {
 			reachedN++
+			reachedKind[d%2]++
 		}
 		first := line + 1
 		for _, l := range lines {
@@ -124,8 +130,9 @@ func run(c *core.Ctx) {
 		}
 	}
 	c.SetExtra("directed_lock_challenges_reached", reachedN)
-	if reachedN == 0 {
-		c.Infra("none of the %d directed lock-challenge schedules reached the challenge (target locked in round 1, late round-0 prevote, fresh round-2 proposal)", nDirected)
+	c.SetExtra("directed_relock_challenges_reached", reachedKind[1])
+	if reachedKind[0] == 0 || reachedKind[1] == 0 {
+		c.Infra("directed schedules did not reach their challenge: lock-challenge %d, relock-challenge %d of %d", reachedKind[0], reachedKind[1], nDirected)
 	}
 	for t := 0; t < nTraces && time.Now().Before(deadline); t++ {
 		seed := c.Seed*100000 + int64(t)
